@@ -559,15 +559,20 @@ func (ev *evalCtx) call(e *SExpr) Val {
 		return ghost(smtAnd(parts...), "Bool")
 	case "lastret":
 		// lastret("callee substring"): the value returned by the latest matching call on this path
-		if len(e.Args) != 1 || e.Args[0].Op != "str" {
-			return ev.fail("lastret(\"callee\")")
+		if len(e.Args) < 1 || e.Args[0].Op != "str" {
+			return ev.fail("lastret(\"callee\" [, \"Sort\"])")
 		}
 		for name, rv := range ev.fr.callRets {
 			if strings.Contains(name, e.Args[0].Str) {
 				return rv
 			}
 		}
-		return ev.fail("lastret: no call to %s on this path", e.Args[0].Str)
+		// no such call on this path: an unconstrained value (the clause then cannot be proved)
+		so := "Int"
+		if len(e.Args) > 1 && e.Args[1].Op == "str" {
+			so = e.Args[1].Str
+		}
+		return ghost(st.fresh("lastret.none", so), so)
 	case "aftercall":
 		// aftercall("callee substring", e): e evaluated in the heap right after the latest matching call
 		// on this path; if there was none, in the function's entry heap
